@@ -16,6 +16,13 @@ Required values, per workload:
      change of the rank coordinate when only that variable is increased by one; halo == max - min of
      the rank coordinate over the box with that variable pinned to its lowest value.
   4. compute_dense_tile_occupancy(projection, bounds) == prod over ranks of (largest coordinate + 1).
+Strengthened families (same required values, same known-finding handling):
+  a. rank sizes at BOTH levels (workload rank_sizes and Einsum rank_sizes for the same rank, different / equal values, disjoint ranks,
+     unused ranks): the documentation is silent about precedence, so the behaviour of the unchanged code is required: the Einsum-level
+     size REPLACES the workload-level size of the same rank for that Einsum only; other ranks / other Einsums keep the workload-level size.
+  b. images with HOLES inside a bounding box (a*p + b*r + c with a, b in 0..4): exact count or explicit error, never the box size.
+  c. call patterns of get_stride_and_halo / get_stride_and_halo_of_einsum: one bounds dict object passed to many calls in several orders,
+     modified by the caller between calls; plain use (P: p) next to compound use (H: a*p + b*r) across tensors whose names sort both ways.
 """
 import itertools, math, random
 
@@ -93,6 +100,11 @@ def _einsum_vars(e):
     return out
 
 
+def _b(case, e, v):
+    """bound of rank variable v in Einsum e: the Einsum's own value (family a: Einsum-level rank size) or the workload-wide one"""
+    return e.get("bounds", {}).get(v, case["bounds"][v])
+
+
 def _kwargs(case):
     """Keyword arguments of accelforge.frontend.workload.Workload for a generated case."""
     kw = {"bits_per_value": {"All": 8}, "einsums": []}
@@ -110,7 +122,7 @@ def _kwargs(case):
             ent["tensor_accesses"].append(acc)
         shape, sizes = [], {}
         for v in _einsum_vars(e):
-            b = case["bounds"][v]
+            b = _b(case, e, v)
             mode = e["modes"].get(v, "einsum_shape")
             if mode == "einsum_shape":
                 shape.append(f"0 <= {v} < {b}")
@@ -120,6 +132,10 @@ def _kwargs(case):
                 sizes[v.upper()] = b
             elif mode == "workload_rank_size":
                 w_sizes[v.upper()] = b
+            elif mode == "both_rank_size":  # Einsum-level value b, workload-level value case["bounds"][v] for the same rank
+                sizes[v.upper()] = b
+                w_sizes[v.upper()] = case["bounds"][v]
+        sizes.update(e.get("extra_rank_sizes", {}))  # ranks this Einsum does not have
         if shape:
             ent["iteration_space_shape"] = shape
         if sizes:
@@ -127,6 +143,7 @@ def _kwargs(case):
         kw["einsums"].append(ent)
     if w_shape:
         kw["iteration_space_shape"] = w_shape
+    w_sizes.update(case.get("extra_rank_sizes", {}))  # workload-level sizes of ranks that no Einsum bounds by them
     if w_sizes:
         kw["rank_sizes"] = w_sizes
     return kw
@@ -136,7 +153,7 @@ def _kwargs(case):
 
 def _box(case, e):
     vs = _einsum_vars(e)
-    return vs, [dict(zip(vs, pt)) for pt in itertools.product(*[range(case["bounds"][v]) for v in vs])]
+    return vs, [dict(zip(vs, pt)) for pt in itertools.product(*[range(_b(case, e, v)) for v in vs])]
 
 
 def _value(r, pt):
@@ -193,7 +210,7 @@ def _stride_halo_required(case, e, t):
         for v, coef in _coeffs(r).items():
             diffs = set()
             for pt in pts:
-                if pt[v] + 1 < case["bounds"][v]:
+                if pt[v] + 1 < _b(case, e, v):
                     nxt = dict(pt)
                     nxt[v] += 1
                     diffs.add(_value(r, nxt) - _value(r, pt))
@@ -211,7 +228,9 @@ def _new_stats():
     return {"einsums": 0, "tensors": 0, "sizes_returned": 0, "explicit_errors_nonbox": 0, "box_images": 0,
             "nonbox_images": 0, "pairs": 0, "pairs_stride_unobservable": 0, "known_finding_hits": 0,
             "excluded_halo_pairs": 0, "excluded_rank_order_tensors": 0, "occupancies": 0, "tensors_in_several_einsums": 0,
-            "tensors_with_several_canonical_accesses": 0}
+            "tensors_with_several_canonical_accesses": 0,
+            "ranksize_cases": 0, "einsum_level_replaces_workload_level": 0, "both_levels_equal": 0, "hole_cases": 0, "hole_family_nonbox_images": 0,
+            "hole_family_explicit_errors": 0, "call_cases": 0, "call_pattern_calls": 0}
 
 
 def _as_int(x):
@@ -246,7 +265,7 @@ def _check(case, stats, strict=False, known_ids=frozenset(('C24-halo-offset', 'C
     for e in case["einsums"]:
         stats["einsums"] += 1
         vs, pts = _box(case, e)
-        want = {v: case["bounds"][v] for v in vs}
+        want = {v: _b(case, e, v) for v in vs}
         try:
             got = {str(k): _as_int(v) for k, v in _isl.get_rank_variable_bounds(w, e["name"]).items()}
         except Exception as ex:
@@ -298,7 +317,7 @@ def _check(case, stats, strict=False, known_ids=frozenset(('C24-halo-offset', 'C
         return fail("get_stride_and_halo(workload)", f"{type(ex).__name__}: {str(ex)[:300]}", "a dictionary")
     for e in case["einsums"]:
         vs, pts = _box(case, e)
-        given = {v: case["bounds"][v] for v in vs}
+        given = {v: _b(case, e, v) for v in vs}
         passed = dict(given)
         try:
             sh_one = _symbolic.get_stride_and_halo_of_einsum(e["name"], w, passed)
@@ -436,6 +455,265 @@ def _core_cases(tier):
                 yield {"bounds": {"m": M, "n": N}, "einsums": [{"name": "E0", "tensors": tensors, "modes": {"m": "workload_rank_size", "n": "einsum_rank_size"}}]}
 
 
+# ------------------------------------------------------------------ strengthened families
+
+def _plain(v, rank=None):
+    return {"a": 1, "x": v, "b": 0, "y": v, "c": 0, "rank": rank or v.upper(), "style": 0}
+
+
+def _comp(rank, a, x, b, y, c=0, style=2):
+    return {"a": a, "x": x, "b": b, "y": y, "c": c, "rank": rank, "style": style}
+
+
+def _apply_level(case, e, v, has_w, e_level, own):
+    """family a: how the bound of v is written for Einsum e. has_w: the workload-level rank_sizes has V (value case['bounds'][v]);
+    e_level: Einsum-level rank size of V or None; own: bound written as Einsum iteration_space_shape when neither level has V.
+    Effective bound (REQUIRED, = behaviour of the unchanged code, the documentation does not say): e_level if given, else the workload-level
+    size, else own."""
+    e.setdefault("bounds", {})
+    if e_level is not None:
+        e["modes"][v] = "both_rank_size" if has_w else "einsum_rank_size"
+        e["bounds"][v] = e_level
+    elif has_w:
+        e["modes"][v] = "workload_rank_size"
+    else:
+        e["modes"][v] = "einsum_shape"
+        e["bounds"][v] = own
+
+
+def _ranksize_core(tier):
+    """exhaustive: ONE Einsum over m, n (A0[M: m, N: n], B0[B0R0: m + n] -> Z0[m, n]); per variable independently: workload-level size W absent
+    or in Ws, Einsum-level size absent or in Es (absent/absent: Einsum iteration_space_shape with bound W)."""
+    Ws, Es = ((2, 3), (1, 2, 3, 4)) if tier == "quick" else ((1, 2, 3, 4), (1, 2, 3, 4, 5))
+    settings = []
+    for W in Ws:
+        settings += [(W, False, None), (W, True, None)] + [(W, False, E) for E in Es if E == W] + [(W, True, E) for E in Es]
+    for sm in settings:
+        for sn in settings:
+            e = {"name": "E0", "modes": {}, "tensors": [
+                {"name": "A0", "output": False, "ranks": [_plain("m"), _plain("n")]},
+                {"name": "B0", "output": False, "ranks": [_comp("B0R0", 1, "m", 1, "n")]},
+                {"name": "Z0", "output": True, "list_form": True, "ranks": [_plain("m"), _plain("n")]}]}
+            case = {"bounds": {"m": sm[0], "n": sn[0]}, "einsums": [e]}
+            for v, (W, has_w, e_level) in (("m", sm), ("n", sn)):
+                _apply_level(case, e, v, has_w, e_level, W)
+            yield case
+
+
+def _ranksize_random(rnd):
+    """two Einsums over m, n, k sharing tensors; the workload-level size of a rank is one value for the whole workload, every Einsum may
+    replace it by its own; also ranks sized only at one level (disjoint), equal values, sizes of ranks nobody has."""
+    pool = ["m", "n", "k"]
+    W = {v: rnd.randint(1, 4) for v in pool}
+    has_w = {v: rnd.random() < 0.65 for v in pool}
+    vars1 = ["m", "n"] if rnd.random() < 0.55 else sorted(rnd.sample(pool, 2), key=pool.index)
+    e0 = {"name": "E0", "modes": {}, "tensors": [
+        {"name": "A0", "output": False, "ranks": [_plain("m"), _plain("n")]},
+        {"name": "B0", "output": False, "ranks": [_comp("B0R0", rnd.choice((1, 2)), "m", 1, "n", style=rnd.randrange(4))]},
+        {"name": "Z0", "output": True, "list_form": rnd.random() < 0.5, "ranks": [_plain("m"), _plain("n")]}]}
+    t1 = []
+    if vars1 == ["m", "n"]:
+        t1.append({"name": "Z0", "output": False, "list_form": rnd.random() < 0.5, "ranks": [_plain("m"), _plain("n")]})
+        if rnd.random() < 0.6:
+            t1.append({"name": "A0", "output": False, "list_form": rnd.random() < 0.5, "ranks": [_plain("m"), _plain("n")]})
+    else:
+        t1.append({"name": "B1", "output": False, "ranks": [_plain(v) for v in vars1]})
+    t1.append({"name": "C1", "output": False, "ranks": [_comp("C1R0", 1, vars1[0], rnd.choice((1, 2)), vars1[1], style=rnd.randrange(4))]})
+    t1.append({"name": "Z1", "output": True, "list_form": rnd.random() < 0.5, "ranks": [_plain(v) for v in vars1]})
+    e1 = {"name": "E1", "modes": {}, "tensors": t1}
+    case = {"bounds": {v: W[v] for v in pool if v in ("m", "n") or v in vars1}, "einsums": [e0, e1]}
+    for e, vs in ((e0, ["m", "n"]), (e1, vars1)):
+        for v in vs:
+            e_level = None
+            if rnd.random() < 0.55:
+                e_level = W[v] if rnd.random() < 0.2 else rnd.randint(1, 4)
+            _apply_level(case, e, v, has_w[v], e_level, rnd.randint(1, 4))
+        if rnd.random() < 0.3:
+            e["extra_rank_sizes"] = {"Q2": rnd.randint(1, 9)}
+    if rnd.random() < 0.5:
+        case["extra_rank_sizes"] = {"Q": rnd.randint(1, 9)}
+    unused = [v for v in pool if v not in case["bounds"]]
+    if unused and rnd.random() < 0.5:
+        case.setdefault("extra_rank_sizes", {})[unused[0].upper()] = rnd.randint(1, 9)
+    if rnd.random() < 0.5:
+        case["einsums"].reverse()  # the reader listed before the writer
+    return case
+
+
+HCOEFFS = [(a, b, c) for a in range(5) for b in range(5) for c in (0, 1) if (a, b) != (0, 0)]
+HOLES = [(2, 1), (3, 1), (2, 2), (1, 3), (3, 2), (4, 1), (2, 0), (3, 0), (0, 2), (0, 3), (4, 2), (2, 3)]
+SECOND = [(1, 0), (0, 1), (1, 1), (0, 2), (2, 1)]
+
+
+def _hole_core(tier):
+    """one Einsum over p, r (output Z0[p, r]); one-rank inputs H = a*p + b*r + c for ALL a, b in 0..4 (not both 0), c in {0, 1}, all bounds
+    (P, R) in 1..bmax; two-rank inputs (hole rank, second rank) in both rank orders for a list of bounds."""
+    bmax = 3 if tier == "quick" else 5
+    out = lambda: {"name": "Z0", "output": True, "list_form": True, "ranks": [_plain("p"), _plain("r")]}
+    for P in range(1, bmax + 1):
+        for R in range(1, bmax + 1):
+            tensors = [{"name": f"S{i}", "output": False, "ranks": [_comp(f"S{i}R0", a, "p", b, "r", c, style=(i % 4))]} for i, (a, b, c) in enumerate(HCOEFFS)]
+            yield {"bounds": {"p": P, "r": R}, "einsums": [{"name": "E0", "tensors": tensors + [out()], "modes": {}}]}
+    blist = [(2, 1), (3, 2), (2, 3)] if tier == "quick" else [(2, 1), (3, 2), (2, 3), (3, 3), (4, 2), (1, 4), (5, 3)]
+    for P, R in blist:
+        tensors = []
+        for i, (a, b) in enumerate(HOLES):
+            for j, (a2, b2) in enumerate(SECOND):
+                h, o = _comp(f"T{i}x{j}H", a, "p", b, "r"), _comp(f"T{i}x{j}W", a2, "p", b2, "r")
+                tensors.append({"name": f"T{i}x{j}", "output": False, "ranks": [h, o] if (i + j) % 2 else [o, h]})
+        yield {"bounds": {"p": P, "r": R}, "einsums": [{"name": "E0", "tensors": tensors + [out()], "modes": {"p": "einsum_rank_size", "r": "workload_rank_size"}}]}
+
+
+def _hole_random(rnd):
+    """a tensor with a hole pattern per Einsum: written by E0 / read by E1, or read by both (size: intersection of two hole patterns)"""
+    P, R = rnd.randint(1, 4), rnd.randint(1, 4)
+    (a1, b1), (a2, b2) = rnd.choice(HOLES + [(1, 0), (1, 1)]), rnd.choice(HOLES + [(1, 0), (0, 1)])
+    two = rnd.random() < 0.4
+    def ranks(a, b):
+        rs = [_comp("TR0", a, "p", b, "r", 1 if rnd.random() < 0.15 else 0, style=rnd.randrange(4))]
+        if two:
+            rs.append(_comp("TR1", 0, "p", 1, "r") if rnd.random() < 0.5 else _comp("TR1", 1, "p", 0, "p"))
+        return rs
+    written = rnd.random() < 0.5
+    outp = lambda n: {"name": n, "output": True, "list_form": True, "ranks": [_plain("p"), _plain("r")]}
+    e0t = [{"name": "T", "output": written, "ranks": ranks(a1, b1)}] + ([{"name": "I0", "output": False, "ranks": [_plain("p"), _plain("r")]}] if written else [outp("Z0")])
+    e1t = [{"name": "T", "output": False, "ranks": ranks(a2, b2)}, outp("Z1")]
+    es = [{"name": "E0", "tensors": e0t, "modes": {}}, {"name": "E1", "tensors": e1t, "modes": {}}]
+    if rnd.random() < 0.5:
+        es.reverse()
+    return {"bounds": {"p": P, "r": R}, "einsums": es}
+
+
+def _call_core(tier):
+    """plain use of p (P: p) next to a compound use (H: a*p + b*r [+ c]) - in two tensors whose names sort plain-first and compound-first,
+    in one tensor with the two ranks in both orders, and in two Einsums in both orders - for all bounds (P, R) in 1..3."""
+    combos = [(1, 1, 0), (2, 1, 0), (1, 2, 0), (1, 1, 1)] if tier == "quick" else [(1, 1, 0), (2, 1, 0), (1, 2, 0), (3, 1, 0), (2, 2, 0), (1, 3, 0), (1, 1, 1), (2, 1, 1)]
+    outs = ["Mm", "AA", "zz"]
+    i = 0
+    for P in (1, 2, 3):
+        for R in (1, 2, 3):
+            for a, b, c in combos:
+                for plain_name, comp_name in (("Aa", "Zz"), ("Zz", "Aa")):
+                    i += 1
+                    tp = {"name": plain_name, "output": False, "ranks": [_plain("p", "P")] + ([_plain("r", "R")] if i % 3 == 0 else [])}
+                    tc = {"name": comp_name, "output": False, "ranks": [_comp("H", a, "p", b, "r", c, style=i % 4)]}
+                    o = {"name": outs[i % 3], "output": True, "list_form": True, "ranks": [_plain("p"), _plain("r")]}
+                    order = [tp, tc, o] if i % 2 else [tc, o, tp]
+                    yield {"bounds": {"p": P, "r": R}, "einsums": [{"name": "E0", "tensors": order, "modes": {}}]}
+                    # one tensor, both rank orders
+                    rs = [_plain("p", "P"), _comp("H", a, "p", b, "r", c, style=i % 4)]
+                    t1 = {"name": plain_name, "output": False, "ranks": rs if i % 2 else rs[::-1]}
+                    o = {"name": outs[(i + 1) % 3], "output": True, "list_form": True, "ranks": [_plain("p"), _plain("r")]}
+                    yield {"bounds": {"p": P, "r": R}, "einsums": [{"name": "E0", "tensors": [t1, o], "modes": {}}]}
+                    # two Einsums: plain use in one, compound use in the other, both orders
+                    ea = {"name": "Ea" if plain_name == "Aa" else "Ez", "modes": {}, "tensors": [
+                        {"name": "X0", "output": False, "ranks": [_plain("p", "P")]}, {"name": "Y0", "output": True, "ranks": [_plain("p", "Y0R0")]}]}
+                    eb = {"name": "Ez" if plain_name == "Aa" else "Ea", "modes": {}, "tensors": [
+                        {"name": "X1", "output": False, "ranks": [_comp("H", a, "p", b, "r", c, style=i % 4)]},
+                        {"name": "Y1", "output": True, "list_form": True, "ranks": [_plain("p"), _plain("r")]}]}
+                    yield {"bounds": {"p": P, "r": R}, "einsums": [ea, eb] if i % 2 else [eb, ea]}
+
+
+def _check_calls(case, stats, rnd, strict=False, known_ids=frozenset(('C24-halo-offset', 'C24-rank-order'))):
+    """Call patterns of get_stride_and_halo_of_einsum / get_stride_and_halo on ONE workload object: the same bounds dict object passed to
+    many calls (Einsums in both orders, repeated), changed in place by the caller between calls, bounds=None calls and whole-workload calls
+    interleaved. Required after every call: the table enumerated here for the box the dict describes AT THAT MOMENT (a result never depends
+    on earlier calls), the dict untouched (items, order, value types), and at the end every earlier result still what it was."""
+    strict_halo = strict or 'C24-halo-offset' not in known_ids
+    from accelforge.frontend.workload import Workload
+    from accelforge.frontend._workload_isl import _symbolic
+
+    kw = _kwargs(case)
+    log = []
+
+    def fail(what, observed, required):
+        return {"failed": True, "input": kw, "calls": list(log), "what": what, "observed": observed, "required": required}
+
+    try:
+        w = Workload(**_kwargs(case))
+    except Exception as ex:
+        return fail("Workload(**input)", f"{type(ex).__name__}: {str(ex)[:300]}", "a Workload object")
+    by = {e["name"]: e for e in case["einsums"]}
+    names = list(by)
+    allvars = sorted({v for e in case["einsums"] for v in _einsum_vars(e)})
+
+    def required(e, bounds):
+        e2 = e if bounds is None else {**e, "bounds": {v: bounds[v] for v in _einsum_vars(e)}}
+        out = {}
+        for t in e["tensors"]:
+            tab = {}
+            for (rank, v), (stride, ext, org, coef, c) in _stride_halo_required(case, e2, t).items():
+                if c != 0 and not strict_halo:
+                    stats["known_finding_hits"] += 1
+                    stats["excluded_halo_pairs"] += 1
+                tab[(rank, v)] = (coef if stride is None else stride, org if (c != 0 and not strict_halo) else ext)
+            out[t["name"]] = tab
+        return out
+
+    def view(res):
+        return {str(t): {(str(k[0]), str(k[1])): (_as_int(x[0]), _as_int(x[1])) for k, x in tab.items()} for t, tab in res.items()}
+
+    def show(tabs):
+        return {t: {f"{k[0]},{k[1]}": list(x) for k, x in tab.items()} for t, tab in tabs.items()}
+
+    full = {v: max(_b(case, e, v) for e in case["einsums"] if v in _einsum_vars(e)) for v in allvars}
+    alt = {v: rnd.randint(1, 4) for v in allvars}
+    shared = dict(full)  # ONE object for all calls marked "shared"
+    script = [("of", n, "shared") for n in names] + [("all",)] + [("of", n, "shared") for n in names[::-1]]
+    script += [("set", v, alt[v]) for v in rnd.sample(allvars, rnd.randint(1, len(allvars)))]
+    script += [("of", n, "shared") for n in names] + [("of", n, None) for n in names[::-1]] + [("of", n, "shared") for n in names[::-1]]
+    script += [("reset",)] + [("of", n, "shared") for n in names[::-1] + names] + [("of", rnd.choice(names), "other")] + [("all",)]
+    script += [("of", n, "shared") for n in names]
+    kept = []
+    for step in script:
+        if step[0] == "set":
+            shared[step[1]] = step[2]
+            log.append(f"caller: bounds[{step[1]!r}] = {step[2]}")
+            continue
+        if step[0] == "reset":
+            shared.update(full)
+            log.append(f"caller: bounds.update({full})")
+            continue
+        stats["call_pattern_calls"] += 1
+        if step[0] == "all":
+            log.append("get_stride_and_halo(w)")
+            try:
+                res = _symbolic.get_stride_and_halo(w)
+            except Exception as ex:
+                return fail("get_stride_and_halo(w)", f"{type(ex).__name__}: {str(ex)[:300]}", "a dictionary")
+            got = {}
+            for (en, tn), tab in res.items():
+                got.setdefault(str(en), {}).update(view({tn: tab}))
+            req = {n: required(by[n], None) for n in names}
+            if got != req:
+                return fail("get_stride_and_halo(w) after the calls listed", {n: show(t) for n, t in got.items()}, {n: show(t) for n, t in req.items()})
+            continue
+        _, n, which = step
+        if which == "shared":
+            arg = shared
+        elif which == "other":  # another dict: reversed key order, an extra key, other values
+            arg = {"zz_unused": 7, **{v: alt[v] for v in reversed(allvars)}}
+        else:
+            arg = None
+        before = None if arg is None else list(arg.items())
+        log.append(f"get_stride_and_halo_of_einsum({n!r}, w, {'None' if arg is None else ('the shared dict ' if which == 'shared' else 'another dict ') + str(dict(arg))})")
+        try:
+            res = _symbolic.get_stride_and_halo_of_einsum(n, w, arg)
+        except Exception as ex:
+            return fail(log[-1], f"{type(ex).__name__}: {str(ex)[:300]}", "a dictionary")
+        if arg is not None and (list(arg.items()) != before or any(type(x) is not int for x in arg.values())):
+            return fail(log[-1] + ": bounds argument after the call", list(arg.items()), before)
+        req = required(by[n], arg)
+        got = view(res)
+        if got != req:
+            return fail(log[-1] + " (result must be that of the box the dict describes now, whatever was called before)", show(got), show(req))
+        kept.append((len(log) - 1, res, req))
+    for idx, res, req in kept:
+        if view(res) != req:
+            return fail(f"result of call #{idx} ({log[idx]}) changed after later calls", show(view(res)), show(req))
+    return None
+
+
 def _sample_text(case):
     kw = _kwargs(case)
     parts = []
@@ -458,11 +736,16 @@ def bounded(p):
     def counters():
         return {"evaluations": evaluations, "distinct": len(seen), "known_finding_hits": stats["known_finding_hits"], "stats": stats}
 
-    def run(case):
+    known_ids = frozenset(e.get('class_id') for e in (p.get('known') or []))
+
+    def run(case, calls_rnd=None):
         nonlocal evaluations
         evaluations += 1
         seen.add(repr(_kwargs(case)))
-        res = _check(case, stats, known_ids=frozenset(e.get('class_id') for e in (p.get('known') or [])))
+        res = _check(case, stats, known_ids=known_ids)
+        if res is None and calls_rnd is not None:
+            stats["call_cases"] += 1
+            res = _check_calls(case, stats, calls_rnd, known_ids=known_ids)
         if res is not None:
             res.update(counters())
         return res
@@ -479,6 +762,53 @@ def bounded(p):
             return res
         if i < 200 and len(samples) < 6 and sum(len(e["tensors"]) for e in case["einsums"]) <= 4:
             samples.append(_sample_text(case))
+
+    # ---- strengthened families (own generator: the draws above stay what they were)
+    rnd2 = random.Random(seed * 7919 + 101 + (0 if tier == "quick" else 1))
+    n_rs, n_hole, n_calls_extra = (200, 60, 120) if tier == "quick" else (2000, 600, 1200)
+
+    def count_levels(case):
+        stats["ranksize_cases"] += 1
+        for e in case["einsums"]:
+            for v, mode in e["modes"].items():
+                if mode == "both_rank_size":
+                    stats["both_levels_equal" if _b(case, e, v) == case["bounds"][v] else "einsum_level_replaces_workload_level"] += 1
+
+    n_rs_core = 0
+    for case in _ranksize_core(tier):  # a. rank sizes at both levels
+        n_rs_core += 1
+        count_levels(case)
+        res = run(case, rnd2 if n_rs_core % 5 == 0 else None)
+        if res is not None:
+            return res
+    for i in range(n_rs):
+        case = _ranksize_random(rnd2)
+        count_levels(case)
+        res = run(case, rnd2 if i % 5 == 0 else None)
+        if res is not None:
+            return res
+        if i < 2:
+            samples.append(_sample_text(case))
+    nb0, er0 = stats["nonbox_images"], stats["explicit_errors_nonbox"]
+    for case in itertools.chain(_hole_core(tier), (_hole_random(rnd2) for _ in range(n_hole))):  # b. holes inside a bounding box
+        stats["hole_cases"] += 1
+        res = run(case)
+        if res is not None:
+            return res
+    stats["hole_family_nonbox_images"] = stats["nonbox_images"] - nb0
+    stats["hole_family_explicit_errors"] = stats["explicit_errors_nonbox"] - er0
+    n_call_core = 0
+    for case in _call_core(tier):  # c. call patterns
+        n_call_core += 1
+        res = run(case, rnd2)
+        if res is not None:
+            return res
+        if n_call_core in (1, 3):
+            samples.append(_sample_text(case))
+    for i in range(n_calls_extra):  # call patterns on workloads of the general random family as well
+        res = run(_rand_case(rnd2, tier), rnd2)
+        if res is not None:
+            return res
 
     bmax, emax = (4, 2) if tier == "quick" else (6, 3)
     rule = (
@@ -500,11 +830,29 @@ def bounded(p):
         "reports b*(Y-1)+c, i.e. the largest coordinate with the variable pinned at 0, e.g. A0[A0R0: m+n+1], m<2, n<3 gives halo 3 for (A0R0,m), extent is 2; "
         "for these pairs the largest coordinate is required instead, stride still compared). "
         "excluded: tensors whose canonical accesses list the same ranks in different orders (never generated: a shared tensor keeps its rank order; the unchanged "
-        "code intersects the images by position, e.g. A[R0: m, R1: n] read by E0 and A[R1: n, R0: m] read by E1 with m<2, n<4 gives size 4, enumeration gives 8)."
+        "code intersects the images by position, e.g. A[R0: m, R1: n] read by E0 and A[R1: n, R0: m] read by E1 with m<2, n<4 gives size 4, enumeration gives 8). "
+        "Strengthened families, same comparisons: (a) RANK SIZES AT BOTH LEVELS. The documentation (docstrings of Workload.rank_sizes / Einsum.rank_sizes, guide) does not say "
+        "which level wins; required is what the unchanged code does: an Einsum-level rank size REPLACES the workload-level size of the same rank for that Einsum (it is not the "
+        "minimum of the two), every other rank and every other Einsum keeps the workload-level size; ranks sized at one level only, equal values and sizes of ranks nobody has "
+        f"change nothing. {n_rs_core} exhaustive one-Einsum workloads (A0[M: m, N: n], B0[B0R0: m+n] -> Z0[m, n]; per variable: workload-level size absent or W, Einsum-level size "
+        f"absent or E, all W, E in the tier's ranges) plus {n_rs} seeded two-Einsum workloads over m, n, k sharing tensors (Z0 written by one and read by the other, A0 read by both; "
+        f"either listing order); {stats['einsum_level_replaces_workload_level']} (Einsum, rank) pairs with different values at the two levels, {stats['both_levels_equal']} with equal values. "
+        f"(b) HOLES INSIDE A BOUNDING BOX: {stats['hole_cases']} workloads: every one-rank input a*p+b*r+c with a, b in 0..4 (not both 0), c in {{0,1}} for all bounds (P,R) in 1..{3 if tier == 'quick' else 5}; "
+        "two-rank inputs (hole rank x second rank, both rank orders) for hole ranks {2p+r, 3p+r, 2p+2r, p+3r, 3p+2r, 4p+r, 2p, 3p, 2r, 3r, 4p+2r, 2p+3r} and second ranks {p, r, p+r, 2r, 2p+r}; "
+        f"{n_hole} seeded two-Einsum workloads where one tensor carries a different hole pattern per Einsum (writer/reader or two readers: size of the intersection); "
+        f"{stats['hole_family_nonbox_images']} non-box images, {stats['hole_family_explicit_errors']} answered by an explicit error, the others by the exact count; the bounding-box size is never accepted. "
+        f"(c) CALL PATTERNS: {stats['call_cases']} workloads ({n_call_core} directed: plain use P: p next to compound use H: a*p+b*r[+c] in two tensors named Aa/Zz both ways round, "
+        "in one tensor with both rank orders, in two Einsums Ea/Ez both ways round, all bounds (P,R) in 1..3; every 5th workload of family (a); "
+        f"{n_calls_extra} workloads of the general random family): on ONE workload object {stats['call_pattern_calls']} calls in scripted sequences - get_stride_and_halo_of_einsum for the Einsums in listing and "
+        "reverse order with the SAME bounds dict object, get_stride_and_halo(w), the caller changing entries of the dict in place, calls with bounds=None, with another dict (other key order, "
+        "extra key, other values), the dict reset, all Einsums again. After every call the table must be the one enumerated for the box the dict describes at that moment "
+        "(so no result depends on earlier calls), the dict must be untouched (items, order, int values), and at the end every earlier result must still be what it was."
     )
     return {
         "failed": False, **counters(), "rule": rule,
-        "bound": f"1-{emax} Einsums, <= 3 rank variables per Einsum, bounds <= {bmax}, rank projections a*x+b*y+c with a,b in {{0,1,2}}, c in {{0,1}}",
+        "bound": f"1-{emax} Einsums, <= 3 rank variables per Einsum, bounds <= {bmax}, rank projections a*x+b*y+c with a,b in {{0,1,2}}, c in {{0,1}}; "
+                 f"rank sizes at both levels: values <= {4 if tier == 'quick' else 5}, <= 2 Einsums; hole family: a,b in 0..4, bounds <= {3 if tier == 'quick' else 5} (two-rank / shared: <= 5); "
+                 "call patterns: scripted sequences of 13-20 calls per workload, dict values <= 4",
         "exhaustive": False, "samples": samples,
         "assumptions": ["shared tensors: required size follows the documented canonical-access rule (writers, else all readers)"],
     }
